@@ -376,6 +376,14 @@ func (p *Program) buildReplay(o *Obligation) (*replayPlan, modelVals) {
 			terms[c.String()] = c
 		}
 	}
+	for _, prm := range fn.Params {
+		if sl, ok := prm.Type().Underlying().(*types.Slice); ok {
+			if it, ok := sl.Elem().Underlying().(*types.Interface); ok && it.NumMethods() == 0 {
+				c := App("slen", SInt, Const("p."+prm.Name(), SInt))
+				terms[c.String()] = c
+			}
+		}
+	}
 	for _, u := range userRefs {
 		for f, sort := range p.UserFields {
 			sel := &Term{Op: "select", Args: []*Term{Const("uh0!"+f, SArr(SInt, sort)), u}, S: sort}
@@ -767,6 +775,9 @@ func (p *Program) buildReplay(o *Obligation) (*replayPlan, modelVals) {
 			calls = append(calls, map[string]interface{}{"kind": e.Kind, "res": map[string]interface{}{"handled": mv.boolean(h), "err": errName(e.Res[1])}})
 		case e.Kind == "CallFuncValue" && len(e.Res) > 0:
 			calls = append(calls, map[string]interface{}{"kind": e.Kind, "res": map[string]interface{}{"err": errName(e.Res[len(e.Res)-1])}})
+		case e.Kind == "Localize":
+			txt, _ := e.Res[0].(*Term)
+			calls = append(calls, map[string]interface{}{"kind": e.Kind, "res": map[string]interface{}{"text": latin1(mv.str(txt))}})
 		case e.Kind == "Respond" || e.Kind == "Redirect" || e.Kind == "SMS.Send" || e.Kind == "Mail.Send":
 			calls = append(calls, map[string]interface{}{"kind": e.Kind, "res": map[string]interface{}{"err": errName(e.Res[0])}})
 		}
@@ -791,6 +802,13 @@ func (p *Program) buildReplay(o *Obligation) (*replayPlan, modelVals) {
 		path := op[len(pre):]
 		ft := fieldTypeByPath(abT, strings.Split(path, "."))
 		if ft == nil || seenCfg[path] {
+			continue
+		}
+		if path == "Core.Localizer" {
+			seenCfg[path] = true
+			if mv.int(t) != 0 {
+				cfg = append(cfg, "\tab.Config.Core.Localizer = vrLocalizer{st}")
+			}
 			continue
 		}
 		if b, ok := ft.Underlying().(*types.Basic); ok && (b.Info()&(types.IsString|types.IsInteger|types.IsBoolean) != 0) {
@@ -895,6 +913,19 @@ func (p *Program) replayCall(fn *ssa.Function, mv modelVals, inRoot bool) (code 
 		if s, ok := basicLit(t, mv["p."+pname]); ok {
 			return s, true
 		}
+		if sl, ok := t.Underlying().(*types.Slice); ok {
+			if it, ok := sl.Elem().Underlying().(*types.Interface); ok && it.NumMethods() == 0 {
+				// variadic ...any: only the empty list can be rebuilt from the model
+				// variadic ...any: the model fixes the length only; the operands are nil values
+				n, _ := mv[App("slen", SInt, Const("p."+pname, SInt)).String()].(int64)
+				if n <= 0 {
+					return "[]interface{}(nil)", true
+				}
+				if n <= 16 {
+					return fmt.Sprintf("make([]interface{}, %d)", n), true
+				}
+			}
+		}
 		if isByteSlice(t) {
 			s, _ := mv["p."+pname].(string)
 			return fmt.Sprintf("[]byte(vrBytes(%s))", strconv.Quote(latin1(s))), true
@@ -993,6 +1024,9 @@ func (p *Program) replayCall(fn *ssa.Function, mv modelVals, inRoot bool) (code 
 				return nil, "parameter " + prm.Name() + " of " + f.Name() + " cannot be constructed"
 			}
 			args = append(args, a)
+		}
+		if f.Signature.Variadic() && len(args) > 0 {
+			args[len(args)-1] += "..."
 		}
 		return args, ""
 	}
@@ -1433,9 +1467,28 @@ func compareResults(o *Obligation, mv modelVals, got []interface{}) (agree bool,
 			if b, ok := got[i].(bool); !ok || b != m {
 				agree = false
 			}
+		case t.S == SStr:
+			m, has := mv.of(t).(string)
+			g, isStr := got[i].(string)
+			if !has || !isStr || !isASCII(m) || !isASCII(g) {
+				continue
+			}
+			compared++
+			if g != m {
+				agree = false
+			}
 		}
 	}
 	return
+}
+
+func isASCII(s string) bool {
+	for i := 0; i < len(s); i++ {
+		if s[i] >= 0x80 {
+			return false
+		}
+	}
+	return true
 }
 
 func isErrorType(t types.Type) bool {
